@@ -185,6 +185,16 @@ def iter_stmts(fnode):
 # Structural rules look at the function with such temporaries substituted
 # back, so "split a long expression into named temporaries" (and the
 # reverse) does not change what a rule sees.
+PURE_CALLS = {"sum", "len", "mean", "std", "var", "min", "max", "nansum", "nanmean", "nanmax", "nanmin", "shape", "size",
+              "isnan", "any", "all", "abs", "sqrt", "log", "exp", "count_nonzero", "ndim", "isscalar", "isinstance",
+              "float", "int", "bool", "ceil", "floor"}
+
+
+def _call_name(c):
+    f = c.func
+    return f.attr if isinstance(f, ast.Attribute) else (f.id if isinstance(f, ast.Name) else None)
+
+
 def inline_temporaries(fnode, max_rounds=80):
     """Deep copy of `fnode` in which every local that
       * is stored exactly once in the function (plain `name = expr`, not a
@@ -222,10 +232,16 @@ def _inline_once(f):
             stores.setdefault(n.id, []).append(n)
         elif isinstance(n, (ast.Subscript, ast.Attribute)) and isinstance(n.ctx, (ast.Store, ast.Del)):
             b = n
+            first_attr = None
             while isinstance(b, (ast.Subscript, ast.Attribute)):
+                if isinstance(b, ast.Attribute):
+                    first_attr = b.attr
                 b = b.value
             if isinstance(b, ast.Name):
-                stores.setdefault(b.id, []).append(n)      # in-place write counts as a store
+                if b.id == "self" and first_attr is not None:
+                    stores.setdefault("self." + first_attr, []).append(n)   # write to one attribute of self
+                else:
+                    stores.setdefault(b.id, []).append(n)      # in-place write counts as a store
     # method calls that mutate (x.append, x.sort ...) count as stores of x
     for n in ast.walk(f):
         if isinstance(n, ast.Expr) and isinstance(n.value, ast.Call) and isinstance(n.value.func, ast.Attribute) \
@@ -271,8 +287,15 @@ def _inline_once(f):
         free = {x.id for x in ast.walk(d.value) if isinstance(x, ast.Name)}
         if name in free:
             continue
-        # an expression with a call is evaluated once: move it only to a single reader
-        if len(uses) > 1 and any(isinstance(x, ast.Call) for x in ast.walk(d.value)):
+        if "self" in free:
+            # reads of self.<attr> conflict only with writes to that attribute
+            # (a method call on self, counted as a store of `self`, still blocks)
+            for x in ast.walk(d.value):
+                if isinstance(x, ast.Attribute) and isinstance(x.value, ast.Name) and x.value.id == "self":
+                    free.add("self." + x.attr)
+        # an expression with a call is evaluated once: move it only to a single
+        # reader - unless every call in it is a pure reduction / shape query
+        if len(uses) > 1 and any(isinstance(x, ast.Call) and _call_name(x) not in PURE_CALLS for x in ast.walk(d.value)):
             continue
         dl = loops_of(d)
         ok_all = True
@@ -320,3 +343,79 @@ def _inline_once(f):
         changed = True
         break      # parents/stores are stale: recompute
     return changed
+
+
+def expand_delegation(p, fi, depth=2):
+    """If the body of `fi` (docstring aside) is `return g(args...)` with g a
+    project function, return a FunctionDef with fi's signature and g's body
+    in which g's parameters are replaced by the argument expressions
+    (beta reduction), repeated up to `depth` times; otherwise fi.node.
+    'De-duplicate two siblings into one private helper' then leaves the
+    structural rules looking at the same code."""
+    import copy
+    node = fi.node
+    mod = fi.module
+    for _ in range(depth):
+        body = [s for s in node.body if not (isinstance(s, ast.Expr) and isinstance(s.value, ast.Constant)
+                                             and isinstance(s.value.value, str))]
+        if len(body) != 1 or not isinstance(body[0], ast.Return) or not isinstance(body[0].value, ast.Call):
+            break
+        call = body[0].value
+        if not isinstance(call.func, (ast.Name, ast.Attribute)):
+            break
+        r = p.resolve_expr(mod, call.func)
+        if r is None or r[0] != "func":
+            break
+        g = r[1]
+        gparams = [a.arg for a in g.node.args.posonlyargs + g.node.args.args]
+        bind = {}
+        ok = True
+        for i, a in enumerate(call.args):
+            if isinstance(a, ast.Starred) or i >= len(gparams):
+                ok = False
+                break
+            bind[gparams[i]] = a
+        for k in call.keywords:
+            if k.arg is None:
+                if g.node.args.kwarg is not None and isinstance(k.value, ast.Name):
+                    bind[g.node.args.kwarg.arg] = k.value
+                else:
+                    ok = False
+            else:
+                bind[k.arg] = k.value
+        if not ok:
+            break
+        gbody = copy.deepcopy(g.node.body)
+        stored = {n.id for st in gbody for n in ast.walk(st) if isinstance(n, ast.Name) and isinstance(n.ctx, ast.Store)}
+        pre = []
+        rename, subst = {}, {}
+        for pn, a in bind.items():
+            if isinstance(a, ast.Name):
+                rename[pn] = a.id
+            elif pn not in stored and isinstance(a, (ast.Attribute, ast.Constant)):
+                subst[pn] = a
+            else:
+                pre.append(ast.copy_location(ast.Assign(targets=[ast.Name(id=pn, ctx=ast.Store())], value=copy.deepcopy(a)), call))
+        # defaults of parameters that were not passed
+        defaults = g.node.args.defaults
+        named = g.node.args.args
+        for a, dflt in zip(named[len(named) - len(defaults):], defaults):
+            if a.arg not in bind:
+                subst[a.arg] = dflt if a.arg not in stored else None
+                if subst[a.arg] is None:
+                    del subst[a.arg]
+                    pre.append(ast.copy_location(ast.Assign(targets=[ast.Name(id=a.arg, ctx=ast.Store())], value=copy.deepcopy(dflt)), call))
+
+        class S(ast.NodeTransformer):
+            def visit_Name(self, n):
+                if n.id in rename:
+                    n.id = rename[n.id]
+                    return n
+                if n.id in subst and isinstance(n.ctx, ast.Load):
+                    return copy.deepcopy(subst[n.id])
+                return n
+        new = copy.deepcopy(node)
+        new.body = [ast.fix_missing_locations(x) for x in pre] + [S().visit(st) for st in gbody]
+        node = new
+        mod = g.module
+    return node
